@@ -9,6 +9,7 @@ import (
 	"path/filepath"
 	"sync"
 	"testing"
+	"time"
 
 	"github.com/attestantio/go-eth2-client/api"
 	apiv1 "github.com/attestantio/go-eth2-client/api/v1"
@@ -127,6 +128,7 @@ func walletUniverse() ([]*wAcct, []string, error) {
 type valTable struct {
 	accts  []*wAcct
 	exited uint64
+	f      faults
 }
 
 func (p *valTable) record(a *wAcct) *apiv1.Validator {
@@ -149,7 +151,20 @@ func (p *valTable) record(a *wAcct) *apiv1.Validator {
 	}
 }
 
-func (p *valTable) Validators(_ context.Context, opts *api.ValidatorsOpts) (*api.Response[map[phase0.ValidatorIndex]*apiv1.Validator], error) {
+// Validators: scripted per operation (the refresh passes its context down):
+// the beacon node fails, answers with nothing, or with every other validator.
+func (p *valTable) Validators(ctx context.Context, opts *api.ValidatorsOpts) (*api.Response[map[phase0.ValidatorIndex]*apiv1.Validator], error) {
+	call := callOf(ctx)
+	subset := false
+	if call != 0 {
+		switch {
+		case p.f.hit("validators-err", call):
+			return nil, strErr("scripted validators failure")
+		case p.f.hit("validators-empty", call):
+			return &api.Response[map[phase0.ValidatorIndex]*apiv1.Validator]{Data: map[phase0.ValidatorIndex]*apiv1.Validator{}, Metadata: map[string]any{}}, nil
+		}
+		subset = p.f.hit("validators-subset", call)
+	}
 	want := map[phase0.BLSPubKey]bool{}
 	for _, k := range opts.PubKeys {
 		want[k] = true
@@ -157,6 +172,9 @@ func (p *valTable) Validators(_ context.Context, opts *api.ValidatorsOpts) (*api
 	data := map[phase0.ValidatorIndex]*apiv1.Validator{}
 	for _, a := range p.accts {
 		if len(want) > 0 && !want[a.pubKey] {
+			continue
+		}
+		if subset && a.id%2 == 1 {
 			continue
 		}
 		v := p.record(a)
@@ -191,6 +209,36 @@ func newValidatorsManager(vp *valTable) (*validatorsmanager.Service, error) {
 	)
 }
 
+// laggingVM is the real validators manager behind a delay: a lookup over
+// thousands of validators, or one that has to wait for the manager's lock while
+// a refresh installs its result, takes its time in production too.  The delay
+// (scenario parameter "vmlag", microseconds) orders nothing; it only widens the
+// time an account query spends between its steps.
+type laggingVM struct {
+	inner *validatorsmanager.Service
+	lag   time.Duration
+}
+
+func (l laggingVM) RefreshValidatorsFromBeaconNode(ctx context.Context, pubKeys []phase0.BLSPubKey) error {
+	return l.inner.RefreshValidatorsFromBeaconNode(ctx, pubKeys)
+}
+
+func (l laggingVM) ValidatorsByIndex(ctx context.Context, indices []phase0.ValidatorIndex) map[phase0.ValidatorIndex]*phase0.Validator {
+	return l.inner.ValidatorsByIndex(ctx, indices)
+}
+
+func (l laggingVM) ValidatorsByPubKey(ctx context.Context, pubKeys []phase0.BLSPubKey) map[phase0.ValidatorIndex]*phase0.Validator {
+	res := l.inner.ValidatorsByPubKey(ctx, pubKeys)
+	if l.lag > 0 {
+		time.Sleep(l.lag)
+	}
+	return res
+}
+
+func (l laggingVM) ValidatorStateAtEpoch(ctx context.Context, index phase0.ValidatorIndex, epoch phase0.Epoch) (apiv1.ValidatorState, error) {
+	return l.inner.ValidatorStateAtEpoch(ctx, index, epoch)
+}
+
 // accountManager is what the rest of vouch uses of an account manager.
 type accountManager interface {
 	Refresh(ctx context.Context)
@@ -205,6 +253,14 @@ type amWorld struct {
 	accts []*wAcct
 	mgr   accountManager
 	stop  func()
+	// beforeRep runs single-threaded before a repetition: scripted changes of
+	// what the account source delivers (a wallet store that has lost a wallet, a
+	// signer that lists fewer accounts).
+	beforeRep func(rep int)
+	name      string
+	// nilSeen: per role (own goroutine only) the first query that handed out a
+	// nil account: no sequential order of refreshes and queries produces that.
+	nilSeen []string
 }
 
 var wSpecs = [][]string{
@@ -219,7 +275,9 @@ func buildWallet(sc *Scenario) (world, error) {
 	if err != nil {
 		return nil, err
 	}
-	vp := &valTable{accts: accts, exited: sc.P["exited"]}
+	f := newFaults(sc.P)
+	setWalletStore(locations, true)
+	vp := &valTable{accts: accts, exited: sc.P["exited"], f: f}
 	vm, err := newValidatorsManager(vp)
 	if err != nil {
 		return nil, err
@@ -231,7 +289,7 @@ func buildWallet(sc *Scenario) (world, error) {
 		walletam.WithLocations(locations),
 		walletam.WithAccountPaths(wSpecs[sc.P["specs"]%uint64(len(wSpecs))]),
 		walletam.WithPassphrases([][]byte{[]byte("p1")}),
-		walletam.WithValidatorsManager(vm),
+		walletam.WithValidatorsManager(laggingVM{vm, time.Duration(sc.P["vmlag"]) * time.Microsecond}),
 		walletam.WithSpecProvider(newSpec(32)),
 		walletam.WithFarFutureEpochProvider(farProvider{}),
 		walletam.WithDomainProvider(domainProvider{}),
@@ -243,10 +301,33 @@ func buildWallet(sc *Scenario) (world, error) {
 	if got, err := mgr.ValidatingAccountsForEpoch(context.Background(), 3); err != nil || len(got) == 0 {
 		return nil, fmt.Errorf("the wallet account manager knows no validating account after construction (%v)", err)
 	}
-	return &amWorld{accts: accts, mgr: mgr}, nil
+	return &amWorld{accts: accts, mgr: mgr, name: "wallet", nilSeen: make([]string, len(sc.Roles)),
+		beforeRep: func(rep int) { setWalletStore(locations, !f.hit("store-off", uint64(rep))) },
+		stop:      func() { setWalletStore(locations, true) },
+	}, nil
 }
 
-func (w *amWorld) prepare(int) {}
+// setWalletStore makes the second store (wallet w2) present or absent: a store
+// that has lost a wallet delivers fewer accounts at the next refresh.  Only
+// called while no role runs.
+func setWalletStore(locations []string, present bool) {
+	on, off := locations[1], locations[1]+".off"
+	if present {
+		if _, err := os.Stat(off); err == nil {
+			_ = os.Rename(off, on)
+		}
+		return
+	}
+	if _, err := os.Stat(on); err == nil {
+		_ = os.Rename(on, off)
+	}
+}
+
+func (w *amWorld) prepare(rep int) {
+	if w.beforeRep != nil {
+		w.beforeRep(rep)
+	}
+}
 
 func indicesOf(mask uint64, n int) []phase0.ValidatorIndex {
 	var res []phase0.ValidatorIndex
@@ -258,28 +339,40 @@ func indicesOf(mask uint64, n int) []phase0.ValidatorIndex {
 	return res
 }
 
-func (w *amWorld) run(_ int, _ int, _ *Role, op *Op) {
-	ctx := context.Background()
+func (w *amWorld) run(rep int, ri int, _ *Role, op *Op, call uint64) {
+	ctx := withCall(context.Background(), call)
+	var got map[phase0.ValidatorIndex]e2wtypes.Account
 	switch op.K {
 	case "refresh":
 		w.mgr.Refresh(ctx)
 	case "validating":
-		_, _ = w.mgr.ValidatingAccountsForEpoch(ctx, phase0.Epoch(op.A))
+		got, _ = w.mgr.ValidatingAccountsForEpoch(ctx, phase0.Epoch(op.A))
 	case "byindex":
-		_, _ = w.mgr.ValidatingAccountsForEpochByIndex(ctx, phase0.Epoch(op.A), indicesOf(op.B, len(w.accts)))
+		got, _ = w.mgr.ValidatingAccountsForEpochByIndex(ctx, phase0.Epoch(op.A), indicesOf(op.B, len(w.accts)))
 	case "sync":
-		_, _ = w.mgr.SyncCommitteeAccountsForEpoch(ctx, phase0.Epoch(op.A))
+		got, _ = w.mgr.SyncCommitteeAccountsForEpoch(ctx, phase0.Epoch(op.A))
 	case "syncbyindex":
-		_, _ = w.mgr.SyncCommitteeAccountsForEpochByIndex(ctx, phase0.Epoch(op.A), indicesOf(op.B, len(w.accts)))
+		got, _ = w.mgr.SyncCommitteeAccountsForEpochByIndex(ctx, phase0.Epoch(op.A), indicesOf(op.B, len(w.accts)))
 	case "pubkey":
 		_, _ = w.mgr.AccountByPublicKey(ctx, w.accts[op.A%uint64(len(w.accts))].pubKey)
 	default:
 		panic("harness: unknown account manager op " + op.K)
 	}
+	for index, account := range got {
+		if account == nil && ri < len(w.nilSeen) && w.nilSeen[ri] == "" {
+			w.nilSeen[ri] = fmt.Sprintf("%s (repetition %d) returned a nil account for validator %d", op.K, rep, index)
+		}
+	}
 }
 
-func (w *amWorld) finish(int) string      { return "" }
-func (w *amWorld) judge(ev.TB, *Scenario) {}
+func (w *amWorld) finish(int) string { return "" }
+func (w *amWorld) judge(t ev.TB, sc *Scenario) {
+	for _, what := range w.nilSeen {
+		if what != "" {
+			ev.Violation(t, "nil-account:"+w.name, sc, "%s", what)
+		}
+	}
+}
 func (w *amWorld) close() {
 	if w.stop != nil {
 		w.stop()
@@ -298,7 +391,7 @@ func buildVM(sc *Scenario) (world, error) {
 	if err != nil {
 		return nil, err
 	}
-	vm, err := newValidatorsManager(&valTable{accts: accts, exited: sc.P["exited"]})
+	vm, err := newValidatorsManager(&valTable{accts: accts, exited: sc.P["exited"], f: newFaults(sc.P)})
 	if err != nil {
 		return nil, err
 	}
@@ -323,8 +416,8 @@ func (w *vmWorld) keys(mask uint64) []phase0.BLSPubKey {
 
 func (w *vmWorld) prepare(int) {}
 
-func (w *vmWorld) run(_ int, _ int, _ *Role, op *Op) {
-	ctx := context.Background()
+func (w *vmWorld) run(_ int, _ int, _ *Role, op *Op, call uint64) {
+	ctx := withCall(context.Background(), call)
 	switch op.K {
 	case "refresh":
 		_ = w.vm.RefreshValidatorsFromBeaconNode(ctx, w.keys(op.B))
@@ -378,11 +471,14 @@ func init() {
 		reps:   12,
 		roles:  accountManagerRoles(),
 		params: func(t *rapid.T) map[string]uint64 {
-			return map[string]uint64{
+			p := map[string]uint64{
 				"specs":  rapid.Uint64Range(0, uint64(len(wSpecs)-1)).Draw(t, "specs"),
 				"exited": rapid.Uint64Range(0, 255).Draw(t, "exited"),
 				"epoch":  rapid.SampledFrom([]uint64{0, 5, 6}).Draw(t, "epoch"),
+				"vmlag":  rapid.SampledFrom([]uint64{0, 0, 200}).Draw(t, "vmlag"),
 			}
+			genFaults(t, p)
+			return p
 		},
 		build: buildWallet,
 	})
@@ -411,10 +507,12 @@ func init() {
 				}},
 		},
 		params: func(t *rapid.T) map[string]uint64 {
-			return map[string]uint64{
+			p := map[string]uint64{
 				"exited": rapid.Uint64Range(0, 255).Draw(t, "exited"),
 				"warm":   rapid.Uint64Range(0, 1).Draw(t, "warm"),
 			}
+			genFaults(t, p)
+			return p
 		},
 		build: buildVM,
 	})
